@@ -233,18 +233,22 @@ void
 qb_ipcs_destroy(struct qb_ipcs_service *s)
 {
 	struct qb_ipcs_connection *c = NULL;
-	struct qb_list_head *pos;
-	struct qb_list_head *n;
+	struct qb_ipcs_connection *next;
 
 	if (s == NULL) {
 		return;
 	}
-	qb_list_for_each_safe(pos, n, &s->connections) {
-		c = qb_list_entry(pos, struct qb_ipcs_connection, list);
-		if (c == NULL) {
-			continue;
-		}
+	/*
+	 * connection_closed() may disconnect or let go of any other
+	 * connection: the next one is kept by a reference, not by a saved
+	 * list pointer.
+	 */
+	c = qb_ipcs_connection_first_get(s);
+	while (c) {
+		next = qb_ipcs_connection_next_get(s, c);
 		qb_ipcs_disconnect(c);
+		qb_ipcs_connection_unref(c);
+		c = next;
 	}
 	(void)qb_ipcs_us_withdraw(s);
 
